@@ -21,8 +21,8 @@ CONFIGS = {"quick": "Dwarf_q.cfg", "thorough": "Dwarf_t.cfg"}
 TLC_TIMEOUT = {"quick": 300, "thorough": 1500}
 # seeded random inputs added to the TLC-generated cases (inputs only; the
 # expected results of these cases are computed by TraceDwarf.tla as well)
-RANDOM_CONST = {"quick": 2000, "thorough": 40000}
-RANDOM_ITEMS = {"quick": 4000, "thorough": 80000}
+RANDOM_CONST = {"quick": 2000, "thorough": 20000}
+RANDOM_ITEMS = {"quick": 4000, "thorough": 40000}
 JOBS = int(os.environ.get("VERIF_JOBS", "16"))          # JVMs / runner processes (upper bound)
 TIER_JOBS = {"quick": 8, "thorough": 16}                 # one JVM start costs about as much as 5000 traces
 WORKERS = int(os.environ.get("VERIF_TLC_WORKERS", "16"))  # TLC workers of the MC run
